@@ -368,11 +368,11 @@ package service
 // that amount from the paying account when - and only when - the record's stake grows by delta; a rejected
 // request changes nothing.
 //@ ghost mstake (Array Bytes Int)
-//@ spec abstract fn stakeUnits(d uint64) Int
+//@ spec abstract fn stakeUnits(x float64) Int
 
 //@ func ext_float64ToBigInt
 //@   option trusted extern=com.tuntun.rangers/node/src/utility.Float64ToBigInt
-//@   ensures result != nil && fresh(result) && big(result) >= 0
+//@   ensures result != nil && fresh(result) && big(result) == stakeUnits(arg0)
 //@   modifies nothing
 
 //@ func MinerManager.GetMinerById
@@ -391,12 +391,13 @@ package service
 //@   option intmode=math
 //@   requires mm != nil && mm.logger != nil && accountdb != nil
 //@   requires [wf]     forall a common.Address :: balOf(a) >= 0
-//@   requires [supply] delta < 4611686018427387904 && forall k Bytes :: @select(ghost(mstake), k) >= 0 && @select(ghost(mstake), k) < 4611686018427387904
+//@   # stakes are whole tokens far below 2^53, where float64(stake) is exact
+//@   requires [supply] delta <= 9007199254740992 && forall k Bytes :: @select(ghost(mstake), k) >= 0 && @select(ghost(mstake), k) < 4611686018427387904
 //@   ensures [noop]     delta == 0 ==> result0 && ghost(bal) == old(ghost(bal)) && ghost(mstake) == old(ghost(mstake))
 //@   ensures [rejected] !result0 ==> ghost(bal) == old(ghost(bal)) && ghost(mstake) == old(ghost(mstake))
 //@   ensures [stake]    result0 && delta != 0 ==> @select(ghost(mstake), old(bytes(minerId))) == old(@select(ghost(mstake), bytes(minerId))) + delta
 //@   ensures [others]   forall k Bytes :: k != old(bytes(minerId)) ==> @select(ghost(mstake), k) == old(@select(ghost(mstake), k))
-//@   ensures [paid]     result0 && delta != 0 ==> balOf(addr) <= old(balOf(addr)) && balOf(addr) >= 0 && forall a common.Address :: a != addr ==> balOf(a) == old(balOf(a))
+//@   ensures [paid]     result0 && delta != 0 ==> balOf(addr) == old(balOf(addr)) - stakeUnits(real(delta)) && balOf(addr) >= 0 && forall a common.Address :: a != addr ==> balOf(a) == old(balOf(a))
 
 // Applying a miner: accepted only for a known type with at least the minimum stake, non-empty keys, a payer that
 // covers the stake, an unused id and an account that controls no other miner (in either registry, whatever the
@@ -407,9 +408,10 @@ package service
 //@   requires mm != nil && mm.logger != nil && mm.pkCache != nil && accountdb != nil && miner != nil
 //@   requires seqLen(regSeq(common.MinerTypeValidator)) >= 0 && seqLen(regSeq(common.MinerTypeProposer)) >= 0
 //@   requires [wf] forall a common.Address :: balOf(a) >= 0
+//@   requires [supply] miner.Stake <= 9007199254740992
 //@   ensures [rejected] !result0 ==> ghost(bal) == old(ghost(bal)) && ghost(mstake) == old(ghost(mstake))
 //@   ensures [type]     result0 ==> miner.Type == common.MinerTypeValidator || miner.Type == common.MinerTypeProposer
 //@   ensures [minimum]  result0 ==> (miner.Type == common.MinerTypeValidator ==> miner.Stake >= common.ValidatorStake) && (miner.Type == common.MinerTypeProposer ==> miner.Stake >= common.ProposerStake)
 //@   ensures [oneminer] result0 ==> noMatch(common.MinerTypeValidator, seqLen(regSeq(common.MinerTypeValidator)), old(bytes(miner.Account))) && noMatch(common.MinerTypeProposer, seqLen(regSeq(common.MinerTypeProposer)), old(bytes(miner.Account)))
 //@   ensures [stored]   result0 ==> @select(ghost(mstake), bytes(miner.Id)) == miner.Stake
-//@   ensures [paid]     result0 ==> balOf(addr) <= old(balOf(addr)) && balOf(addr) >= 0 && forall a common.Address :: a != addr ==> balOf(a) == old(balOf(a))
+//@   ensures [paid]     result0 ==> balOf(addr) == old(balOf(addr)) - stakeUnits(real(miner.Stake)) && balOf(addr) >= 0 && forall a common.Address :: a != addr ==> balOf(a) == old(balOf(a))
